@@ -64,6 +64,13 @@ static void initAlphabet() {
   full("BTI", 3, 'D', {"00:00:00", "23:59:59", "12:34:56"});
   full("TTM", 1, 'D', {"00:00", "23:50", "12:00"});
   full("HDY", 1, 'L', {"Mon", "Sun", "Thu"});
+  // explicit divisors ("type/divisor") and IEEE float types: their formatting (fixed / default float format,
+  // precision) is the state a following field must not inherit; float values need several significant digits
+  full("UCH/10", 1, 'N', {"0.0", "25.4", "8.5"});
+  full("UIN/-10", 2, 'N', {"0", "655340", "218450"});
+  full("EXP", 4, 'F', {"3.14159", "-1234.56", "0.001"});
+  full("EXR", 4, 'F', {"0.25", "3.14159", "-1234.56"});
+  full("EXP/10", 4, 'F', {"3.1415901", "-0.2500000", "0.0010000"});
   // truncated time in 6 bits of one byte (see above)
   g_subByte = (int)g_alpha.size();
   g_alpha.push_back(FT{"TTH", 1, false, 0, 0, false, false, 'T', {"00:00", "23:00", "10:30"}});
@@ -92,7 +99,10 @@ static const DataField* createFields(const Seq& s, const vector<string>* names =
   for (size_t i = 0; i < s.size(); i++) {
     rows[i]["name"] = names ? (*names)[i] : "f" + std::to_string(i);
     rows[i]["part"] = string(1, s[i].part);
-    rows[i]["type"] = g_alpha[s[i].t].type;
+    string ty = g_alpha[s[i].t].type;
+    size_t slash = ty.find('/');
+    rows[i]["type"] = ty.substr(0, slash);
+    if (slash != string::npos) rows[i]["divisor"] = ty.substr(slash + 1);
   }
   const DataField* f = nullptr;
   string err;
@@ -270,6 +280,12 @@ class SeqCheck {
       if (owned[j].openEnded) for (auto& kv : owned[i].mask) if (kv.first >= owned[j].from) inter = true;
       if (!inter) continue;
       bool declared = ft(i).bit && ft(j).bit && ft(i).firstBit < ft(j).firstBit + ft(j).nbits && ft(j).firstBit < ft(i).firstBit + ft(i).nbits;
+      // a bit field directly following a bit field with the same first bit is the same position of the
+      // NEXT byte (e.g. BI0;BI7;BI0 and BI0;BI0 are two bytes), it can never share the byte
+      bool adjacent = true;
+      for (size_t k = i + 1; k < j; k++) if (seq[k].part == seq[i].part) adjacent = false;
+      if (declared && adjacent && ft(i).firstBit == ft(j).firstBit)
+        fail("same-position-shares-byte", string(ft(i).type) + " and the directly following " + ft(j).type + " (fields " + std::to_string(i) + "," + std::to_string(j) + ") start at the same bit of the same byte", seq[i].part);
       if (declared) overlapDefs = true;
       else fail("owned-overlap", string(ft(i).type) + " and " + ft(j).type + " (fields " + std::to_string(i) + "," + std::to_string(j) + ") change the same bits", seq[i].part);
     }
@@ -565,7 +581,7 @@ int main(int argc, char** argv) {
       return 3;
     }
   }
-  std::set<string> reduced = {"UCH", "UIN", "D2C", "BCD", "BI0", "BI0:3", "BI3:2", "BI7", "IGN:1", "STR:2", "HDY", "TTH", "STR:*"};
+  std::set<string> reduced = {"UCH", "UIN", "D2C", "BCD", "BI0", "BI0:3", "BI3:2", "BI7", "IGN:1", "STR:2", "HDY", "TTH", "STR:*", "UCH/10", "EXP"};
   uint64_t counter = 0;
   Seq cur;
   bool stop = false;
